@@ -1,5 +1,5 @@
 /-
-  C10 lemmas, part 12: entering `chop_more` (the examination of the `\001` mark) in terms of the automaton.
+  C10 lemmas, part 12: entering `chop_more` (the examination of the newline-seen mark `eolp`) in terms of the automaton.
 -/
 import Echse.Lemmas.Ical11
 namespace Echse.Ical
@@ -26,11 +26,7 @@ theorem rest_bix_succ (p : Parser) (c : Byte) (r : List Byte) (h : rest p = c ::
 theorem flushA_of_nil (A : Abs) (h : A.cur = []) : flushA A = { A with sc := {} } := by
   unfold flushA; rw [if_pos h]
 
-theorem marked_iff (p : Parser) : Marked p ↔ (p.stash ≠ [] ∧ p.sentinel = 1) := by
-  unfold Marked
-  constructor
-  · intro h; exact ⟨fun e => h.1 (by rw [e]; rfl), h.2⟩
-  · intro h; exact ⟨fun e => h.1 (List.eq_nil_of_length_eq_zero e), h.2⟩
+theorem marked_iff (p : Parser) : Marked p ↔ p.eolp = true := Iff.rfl
 
 /-- from the round's start to `chop_more` -/
 theorem pre_chop (p : Parser) (A : Abs) (h : Pre p A) (hne : rest p ≠ [])
@@ -43,22 +39,20 @@ theorem pre_chop (p : Parser) (A : Abs) (h : Pre p A) (hne : rest p ≠ [])
     have hbp : bpOf p = c := by rw [bpOf_eq, hr]; rfl
     have hg := h.good; rw [hr, good_cons] at hg
     by_cases hm : Marked p
-    · -- the mark is there and fold whitespace follows
+    · -- the mark is there and fold whitespace follows (be the line empty so far or not)
       have hf : isFold c = true := by
         rw [← fold_iff, ← hbp]
         exact Decidable.byContradiction fun hn => hc ⟨hm, hn⟩
-      have hm' := (marked_iff p).1 hm
-      have hcur : A.cur ≠ [] := by rw [← h.rel.stash]; exact hm'.1
-      have hpend : A.sc.pend = true := (h.rel.mark hcur).1 hm'.2
-      have hpre : preChop p = { p with sentinel := 0, bix := p.bix + 1 } := by
+      have hpend : A.sc.pend = true := h.rel.mark.1 hm
+      have hpre : preChop p = { p with eolp := false, bix := p.bix + 1 } := by
         unfold preChop; rw [if_pos hm]
       have hrest : rest (preChop p) = r := by
         rw [hpre]; exact rest_bix_succ p c r hr
       refine ⟨{ A with sc := stepSc A.sc c }, ⟨?_, ?_, ?_, ?_⟩, ?_, rfl, ?_⟩
       · rw [hpre]
-        refine ⟨h.rel.stash, h.rel.comp, h.rel.log, fun _ => ?_⟩
-        show (0 : Nat) = 1 ↔ (stepSc A.sc c).pend = true
-        rw [stepSc_pend_fold _ _ hpend hf]; simp
+        refine ⟨h.rel.stash, h.rel.comp, h.rel.log, ?_⟩
+        show false = true ↔ (stepSc A.sc c).pend = true
+        rw [stepSc_pend_fold _ _ hpend hf]
       · have := stepA_inv A c h.inv
         rw [stepA_pend_fold A c hpend hf] at this; exact this
       · rw [hrest]; exact hg.2
@@ -68,26 +62,10 @@ theorem pre_chop (p : Parser) (A : Abs) (h : Pre p A) (hne : rest p ≠ [])
       · rw [hrest, runA_cons, stepA_pend_fold A c hpend hf]
     · have hpre : preChop p = p := by unfold preChop; rw [if_neg hm]
       rw [hpre, hr]
-      cases hpend : A.sc.pend with
-      | false => exact ⟨A, h, hpend, rfl, rfl⟩
-      | true =>
-        -- a pending NL behind an empty line
-        have hcur : A.cur = [] := by
-          apply Decidable.byContradiction; intro hcur
-          have h1 := (h.rel.mark hcur).2 hpend
-          exact hm ((marked_iff p).2 ⟨by rw [h.rel.stash]; exact hcur, h1⟩)
-        have hemp : A.sc.empty = true := h.inv.1.2 hcur
-        have hf : isFold c = false := by
-          have := hg.1
-          unfold okAt at this
-          simp [hpend, hemp] at this
-          exact this.2
-        have hfl := flushA_of_nil A hcur
-        refine ⟨flushA A, ⟨?_, flushA_inv A, ?_, ?_⟩, by rw [flushA_sc], by rw [hfl], ?_⟩
-        · rw [hfl]
-          exact ⟨by rw [h.rel.stash], h.rel.comp, h.rel.log, fun hx => absurd hcur hx⟩
-        · rw [flushA_sc, hr]; exact good_restart A.sc c r hpend hf ((good_cons _ _ _).2 hg)
-        · rw [hr]; intro d hd; exact h.nobsl d (by rw [hr]; exact hd)
-        · exact runA_flush A c r hpend hf
+      have hpend : A.sc.pend = false := by
+        cases hx : A.sc.pend with
+        | false => rfl
+        | true => exact absurd (h.rel.mark.2 hx) hm
+      exact ⟨A, h, hpend, rfl, rfl⟩
 
 end Echse.Ical
